@@ -9,12 +9,12 @@ spec/dram/FlatMemTrace.tla    every Top-port trace of the real component must be
 spec/dram/BankedMemTrace.tla  binds BankedMem to the code and names the deviation behind a rejected trace (signature)
 harness/cmd/c17               cycle-scripted driver of the real simplebankedmemory.Comp (akitabench)
 """
-import concurrent.futures
 import copy
 import json
 import math
 import os
 import random
+import re
 
 import common
 import vlib
@@ -183,7 +183,6 @@ def flat_all(ctx, tfile):
             v['violated'], v['res'].out[-2500:]))
     starts = [s for s, _ in vlib.split_traces(tfile)]
     bad = {}
-    import re
     for m in re.finditer(r'<<"TRACEFAIL", (\d+), "([^"]*)">>', v['res'].out):
         line, why = int(m.group(1)), m.group(2)
         idx = max(i for i, s in enumerate(starts) if s <= line)
@@ -234,30 +233,42 @@ def minimise(ctx, drv, sc):
     return cur
 
 
-def banked_accepts(ctx, recs, devs, tag):
-    recs = copy.deepcopy(recs)
-    recs[0]['dev'] = list(devs)
-    p = os.path.join(ctx.scratch, 'cls_%s.ndjson' % tag)
+B, P, L = DEVS
+HYPS = [[], [B], [P], [L], [B, P], [B, L], [P, L], [B, P, L]]
+
+
+def banked_explains(ctx, runs, hyps, tag, workers=6, timeout=1500):
+    """One TLC run of BankedMemTrace over many recorded runs: for run i the set of indexes into `hyps` (deviation
+    sets) under which BankedMem has a behaviour that explains the whole run."""
+    recs, starts = [], []
+    for r in runs:
+        r = copy.deepcopy(r)
+        r[0]['devs'] = hyps
+        starts.append(len(recs) + 1)
+        recs += r
+    p = os.path.join(ctx.scratch, 'banked_%s.ndjson' % tag)
     vlib.write_ndjson(p, recs)
-    v = ctx.validate_trace(BANKED['dirs'], BANKED['module'], BANKED['cfg'], p, timeout=600)
-    return v['accepted']
+    res = ctx.tlc(BANKED['dirs'], BANKED['module'], BANKED['cfg'], workers=workers, timeout=timeout,
+                  extra_files={'trace.ndjson': p}, kind='trace')
+    if not res.completed or res.violated:
+        raise vlib.Infra('BankedMemTrace run failed:\n' + res.out[-2500:])
+    ctx.cov['trace_states'] = ctx.cov.get('trace_states', 0) + res.distinct
+    ok = {i: set() for i in range(len(runs))}
+    for m in re.finditer(r'<<"RUNOK", (\d+), (\d+)>>', res.out):
+        ok[starts.index(int(m.group(1)))].add(int(m.group(2)) - 1)
+    return ok
 
 
-def classify(ctx, recs, tag):
-    """Smallest deviation set under which BankedMem explains the run ('none' if no set does)."""
-    cfg = recs[0]
-    order = []
-    if cfg.get('track'):
-        order += [['RowHitBypassesDelayQueue'], ['PassesBlockedHit']]
-    if cfg.get('width', 1) > 1:
-        order += [['LaneOvertake']]
-    order += [[d] for d in DEVS if [d] not in order]
-    order += [['RowHitBypassesDelayQueue', 'PassesBlockedHit'], DEVS]
-    if banked_accepts(ctx, recs, [], tag + '_0'):
+def name_deviation(accepted, cfg):
+    """Which deviation(s) the failing run needs: the first single deviation that explains it alone (a pipeline wider
+    than one lane is blamed first where it can be the cause: only there LaneOvertake is enabled at all), else the
+    smallest set that does; 'none' if BankedMem cannot explain the run at all."""
+    if 0 in accepted:
         return 'model_accepts_without_deviation'
-    for i, devs in enumerate(order):
-        if banked_accepts(ctx, recs, devs, '%s_%d' % (tag, i + 1)):
-            return '+'.join(devs)
+    order = [3, 1, 2] if cfg.get('width', 1) > 1 else [1, 2, 3]
+    for i in order + [4, 5, 6, 7]:
+        if i in accepted:
+            return '+'.join(HYPS[i])
     return 'none'
 
 
@@ -281,17 +292,14 @@ def handle_failures(ctx, drv, scen, tfile, bad, cap):
     mbad = flat_all(ctx, mt)
     mparts = vlib.split_traces(mt)
 
-    def work(j):
-        i = todo[j]
+    chosen = []
+    for j, i in enumerate(todo):
         if j in mbad:
-            sc, recs, (line, why) = mins[j], mparts[j][1], mbad[j]
+            chosen.append((mins[j], mparts[j][1], mbad[j]))
         else:   # the diagnostic oracle and TLC disagree on the minimised run: keep the original
-            sc, recs, (line, why) = scen[i], parts[i][1], bad[i]
-        dev = classify(ctx, recs, 'f%d' % j)
-        return sc, recs, line, why, dev
-
-    with concurrent.futures.ThreadPoolExecutor(max_workers=4) as ex:
-        results = list(ex.map(work, range(len(todo))))
+            chosen.append((scen[i], parts[i][1], bad[i]))
+    acc = banked_explains(ctx, [c[1] for c in chosen], HYPS, 'classify')
+    results = [(sc, recs, lw[0], lw[1], name_deviation(acc[j], recs[0])) for j, (sc, recs, lw) in enumerate(chosen)]
     for sc, recs, line, why, dev in results:
         if dev == 'model_accepts_without_deviation':
             raise vlib.Infra('BankedMem without deviations accepts a run FlatMem rejects: the design model is unsound')
@@ -388,16 +396,15 @@ def corruptions():
 
 # ---------------------------------------------------------------------- run
 def model_check(ctx, thorough):
-    r = ctx.tlc_expect_ok(['dram'], 'MC_BankedMem.tla', 'MC_BankedMem.cfg', coverage=True, timeout=900)
-    ctx.log('MC_BankedMem (design, 3 requests of 7 payloads): %d distinct states, depth %d' % (r.distinct, r.depth))
-    zeros = [z for z in r.coverage_zero() if not z.startswith('FlatMem')]
-    ctx.cov['coverage_zero_actions'] = zeros
-    r = ctx.tlc_expect_ok(['dram'], 'MC_BankedMem.tla', 'MC_BankedMem_w2.cfg', timeout=900)
-    ctx.log('MC_BankedMem_w2 (design, pipeline width 2): %d distinct states' % r.distinct)
+    r = ctx.tlc_expect_ok(['dram'], 'MC_BankedMem.tla', 'MC_BankedMem_cov.cfg', coverage=True, timeout=900)
+    ctx.log('MC_BankedMem_cov (design, row tracking, 2 lanes, 3 of 4 payloads, coverage): %d distinct states' % r.distinct)
+    ctx.cov['coverage_zero_actions'] = [z for z in r.coverage_zero() if not z.startswith('FlatMem')]
+    r = ctx.tlc_expect_ok(['dram'], 'MC_BankedMem.tla', 'MC_BankedMem.cfg', timeout=900)
+    ctx.log('MC_BankedMem (design, row tracking, 3 of 7 payloads): %d distinct states, depth %d' % (r.distinct, r.depth))
     r = ctx.tlc_expect_ok(['dram'], 'MC_BankedMem.tla', 'MC_BankedMem_live.cfg', timeout=900)
     ctx.log('MC_BankedMem_live (Progress under fairness): %d distinct states' % r.distinct)
     if thorough:
-        for cfg in ('MC_BankedMem_4.cfg', 'MC_BankedMem_big.cfg'):
+        for cfg in ('MC_BankedMem_n2.cfg', 'MC_BankedMem_4.cfg', 'MC_BankedMem_big.cfg'):
             r = ctx.tlc_expect_ok(['dram'], 'MC_BankedMem.tla', cfg, workers=min(vlib.NCPU, 12), timeout=3000)
             ctx.log('%s: %d distinct states, depth %d' % (cfg, r.distinct, r.depth))
         ctx.cov['exhaustive'] = True
@@ -459,7 +466,7 @@ def run(ctx, selftest=False):
     diag = {int(k) for k in stats['suspect']}
     if diag != set(bad):
         ctx.notes.append('diagnostic oracle and TLC disagree on runs %s' % sorted(diag ^ set(bad))[:10])
-    handle_failures(ctx, drv, scen, tfile, bad, cap=400 if thorough else 24)
+    handle_failures(ctx, drv, scen, tfile, bad, cap=2000 if thorough else 150)
 
     parts = vlib.split_traces(tfile)
     good = [i for i in range(len(parts)) if i not in bad]
@@ -473,40 +480,21 @@ def run(ctx, selftest=False):
     ctx.sample({'trace_excerpt': [{k: v for k, v in r.items() if k != 'cfg'} for r in parts[0][1][:8]]})
 
     # 4. the implementation-shaped model explains the real component: property-conforming replayed runs must be
-    #    behaviours of BankedMem with the as-implemented deviations (grouped by configuration, one TLC run each)
-    groups = {}
-    for i in good:
-        if i < nreplay and len(scen[i]['reqs']) <= 6:
-            groups.setdefault(json.dumps(scen[i]['cfg'], sort_keys=True), []).append(i)
-    keys = sorted(groups)
+    #    behaviours of BankedMem with the as-implemented deviations
+    sel = [i for i in good if i < nreplay and len(scen[i]['reqs']) <= 6]
     if not thorough:
-        keys = keys[:4]
-
-    def bind(key):
-        recs = []
-        for i in groups[key][:40 if thorough else 12]:
-            recs += copy.deepcopy(parts[i][1])
-        for r in recs:
-            if r['e'] == 'Reset':
-                r['dev'] = DEVS
-        p = os.path.join(ctx.scratch, 'bind_%d.ndjson' % keys.index(key))
-        vlib.write_ndjson(p, recs)
-        v = ctx.validate_trace(BANKED['dirs'], BANKED['module'], BANKED['cfg'], p, timeout=900)
-        return key, v, len(groups[key][:40 if thorough else 12])
-
-    with concurrent.futures.ThreadPoolExecutor(max_workers=4) as ex:
-        bound = list(ex.map(bind, keys))
-    nb = 0
-    for key, v, n in bound:
-        if not v['accepted']:
-            msg = 'BankedMem (as implemented) does not explain a property-conforming run of cfg %s at line %s' % (key, v['highwater'])
-            if ctx.violations:
-                ctx.notes.append(msg)
-            else:
-                raise vlib.Infra(msg)
-        nb += n
-    ctx.cov['runs_explained_by_BankedMem'] = nb
-    ctx.log('BankedMemTrace (as implemented) explains %d replayed runs in %d configurations' % (nb, len(bound)))
+        sel = sel[:40]
+    acc = banked_explains(ctx, [parts[i][1] for i in sel], [DEVS], 'bind')
+    unexplained = [sel[j] for j in range(len(sel)) if 0 not in acc[j]]
+    if unexplained:
+        msg = 'BankedMem (as implemented) does not explain property-conforming runs %s, e.g. %s' % (
+            unexplained[:5], json.dumps(scen[unexplained[0]])[:600])
+        if ctx.violations:
+            ctx.notes.append(msg)
+        else:
+            raise vlib.Infra(msg)
+    ctx.cov['runs_explained_by_BankedMem'] = len(sel) - len(unexplained)
+    ctx.log('BankedMemTrace (as implemented) explains %d replayed runs' % (len(sel) - len(unexplained)))
 
     # 5. binding self-test on accepted runs only
     gfile = os.path.join(ctx.scratch, 'good.ndjson')
